@@ -242,6 +242,8 @@ var c17Variants = []string{
 	"2001-01-01 shop\n    expenses:food  $5\n    assets:cash\n",
 	"2001-01-01 shop  ; t:v\n    expenses:food  $5 @ 2 EUR\n    assets:cash\n\n2001-01-02 * (7) cafe | note\n    a:b  1 \"x y\"\n    c:d\n",
 	"",
+	// the text above without its last transaction: the tokens are a proper prefix
+	"2001-01-01 shop  ; t:v\n    expenses:food  $5 @ 2 EUR\n    assets:cash\n",
 }
 
 type c17Op struct {
